@@ -11,6 +11,7 @@ the assignments to watched locals and the final environment.
 
 This is abstract interpretation of the source's MIR, not execution: nothing is run, values are
 symbols, loops are cut at the stop blocks."""
+import re
 from .facts import op_place
 
 
@@ -22,12 +23,44 @@ def C(n):
     return ("c", int(n))
 
 
+def to_lin(v):
+    """numeric abstract value -> {symbol: coefficient, '1': constant} (None when not numeric)"""
+    if v is None:
+        return None
+    if v[0] == "c":
+        return {"1": v[1]}
+    if v[0] == "sym":
+        return {v[1]: 1, "1": v[2]}
+    if v[0] == "lin":
+        return dict(v[1])
+    return None
+
+
+def from_lin(d):
+    d = {k: c for k, c in d.items() if c != 0 or k == "1"}
+    syms = [k for k in d if k != "1"]
+    if not syms:
+        return C(d.get("1", 0))
+    if len(syms) == 1 and d[syms[0]] == 1:
+        return ("sym", syms[0], d.get("1", 0))
+    return ("lin", d)
+
+
+def lin_add(a, b, sign=1):
+    out = dict(a)
+    for k, c in b.items():
+        out[k] = out.get(k, 0) + sign * c
+    return out
+
+
 class PEval:
-    def __init__(self, F, fn, discr_of=None, limit=4000):
+    def __init__(self, F, fn, discr_of=None, limit=4000, call_hook=None, index_hook=None):
         self.F = F
         self.fn = fn
         self.limit = limit
         self.fresh = 0
+        self.call_hook = call_hook      # (pe, env, terminator, argvals) -> value | NotImplemented
+        self.index_hook = index_hook    # (pe, env, place) -> value | None for reads through an index projection
         # discr_of: {(local, proj-key): variant index} facts about places whose discriminant is known
         self.discr_facts = dict(discr_of or {})
 
@@ -86,6 +119,14 @@ class PEval:
             return None
         return v
 
+    def read_place_hooked(self, env, place):
+        if self.index_hook is not None and any(e[0] in ("index", "cidx") for e in place["p"]):
+            pl = self.resolve_place(env, place)
+            v = self.index_hook(self, env, pl)
+            if v is not None:
+                return v
+        return self.read_place(env, place)
+
     def read(self, env, o):
         if o is None:
             return None
@@ -97,7 +138,7 @@ class PEval:
                     return None
             return None
         p = op_place(o)
-        return self.read_place(env, p) if p is not None else None
+        return self.read_place_hooked(env, p) if p is not None else None
 
     def resolve_place(self, env, place, depth=0):
         """the place with leading `(*ref_local)` replaced by what the reference points to"""
@@ -142,12 +183,9 @@ class PEval:
             res = None
             if base in ("Add", "Sub"):
                 sgn = 1 if base == "Add" else -1
-                if a is not None and b is not None and a[0] == "c" and b[0] == "c":
-                    res = C(a[1] + sgn * b[1])
-                elif a is not None and a[0] == "sym" and b is not None and b[0] == "c":
-                    res = ("sym", a[1], a[2] + sgn * b[1])
-                elif base == "Add" and b is not None and b[0] == "sym" and a is not None and a[0] == "c":
-                    res = ("sym", b[1], b[2] + a[1])
+                la, lb = to_lin(a), to_lin(b)
+                if la is not None and lb is not None:
+                    res = from_lin(lin_add(la, lb, sgn))
                 else:
                     res = self.new_sym()
                 if "WithOverflow" in op:
@@ -239,9 +277,13 @@ class PEval:
                 if k == "unreachable":
                     break
                 if k == "call":
-                    events.append(("call", t["f"], [self.read(env, a) for a in t["args"]], b, t))
+                    argvals = [self.read(env, a) for a in t["args"]]
+                    events.append(("call", t["f"], argvals, b, t))
+                    res = NotImplemented
+                    if self.call_hook is not None:
+                        res = self.call_hook(self, env, t, argvals)
                     if not t["dest"]["p"]:
-                        env[t["dest"]["l"]] = None
+                        env[t["dest"]["l"]] = None if res is NotImplemented else res
                     if t["to"] is None or t["to"] < 0:
                         out.append({"events": events, "env": env, "end": "diverge"})
                         break
@@ -272,3 +314,59 @@ class PEval:
                     continue
                 break
         return out
+
+
+
+_inl_cache = {}
+
+
+def with_closure_calls_inlined(F, fn):
+    """fn with every direct call of a closure built in fn itself (`let f = |t| ..; f(x)` -> Fn::call(&f, (x,))) replaced
+    by the closure's body (facts._splice): the captures become reads of the closure aggregate's components, so the
+    evaluator sees `label_offsets[..] - next` instead of an opaque call."""
+    from . import facts
+    key = (id(F), fn.path)
+    if key in _inl_cache:
+        return _inl_cache[key]
+    blocks = [{"s": list(b["s"]), "t": b["t"]} for b in fn.blocks]
+    locals_ = list(fn.locals)
+    dbg = dict(fn.dbg)
+    clos = {}
+    for b in blocks:
+        for st in b["s"]:
+            if st["r"]["k"] == "agg" and st["r"]["adt"].startswith("closure:") and not st["d"]["p"]:
+                clos[st["d"]["l"]] = st["r"]["adt"][len("closure:"):]
+    changed = False
+    tmp = facts.Fn(dict(fn.d, blocks=blocks, locals=locals_, dbg={str(k): v for k, v in dbg.items()}), fn.crate)
+    bi = 0
+    while bi < len(blocks) and len(blocks) < 4000:
+        t = blocks[bi]["t"]
+        if t["k"] == "call" and re.search(r"ops::function::Fn(Mut|Once)?::call", t.get("decl") or "") and len(t["args"]) == 2:
+            tmp.blocks, tmp.locals = blocks, locals_
+            tmp._succ = tmp._pred = tmp._dom = tmp._pdom = tmp._reach = tmp._defs = None
+            r = tmp.root_of(t["args"][0])
+            cl_local = None
+            if r[0] == "local" and r[1] in clos:
+                cl_local = r[1]
+            elif r[0] == "rvalue" and r[1]["k"] == "agg" and r[1]["adt"].startswith("closure:"):
+                for l_, p_ in clos.items():
+                    if "closure:" + p_ == r[1]["adt"]:
+                        cl_local = l_
+            c = F.fn(clos[cl_local]) if cl_local is not None else None
+            tup = tmp.root_of(t["args"][1])
+            if c is not None and tup[0] == "rvalue" and tup[1]["k"] == "agg" and tup[1]["adt"] == "tuple" and c.argc == len(tup[1]["ops"]) + 1:
+                # the closure receives a reference to itself: make it one to the closure local
+                lo = len(locals_)
+                locals_.append("&" + (locals_[cl_local] or "closure"))
+                blocks[bi]["s"].append({"d": {"l": lo, "p": []}, "r": {"k": "ref", "mut": False, "a": {"l": cl_local, "p": []}}, "sp": t.get("sp", "")})
+                facts._splice(blocks, locals_, dbg, bi, c, [{"move": {"l": lo, "p": []}}] + list(tup[1]["ops"]), 0)
+                changed = True
+        bi += 1
+    if not changed:
+        _inl_cache[key] = fn
+        return fn
+    d = dict(fn.d)
+    d["blocks"], d["locals"], d["dbg"] = blocks, locals_, {str(k): v for k, v in dbg.items()}
+    nf = facts.Fn(d, fn.crate)
+    _inl_cache[key] = nf
+    return nf
